@@ -241,7 +241,7 @@ func denyExec(fn *ssa.Function) bool {
 	}
 	if p == "io" {
 		switch fn.Name() {
-		case "ReadFull", "ReadAtLeast":
+		case "ReadFull", "ReadAtLeast", "Copy", "CopyBuffer", "copyBuffer":
 			return false
 		}
 		return true
